@@ -96,6 +96,11 @@ def handlers : List (String × Handler) := [
       (← getInt j "last") (← getInt j "max")
     pure (exceptToJson (fun (m : Int × Int × Int × Int × Int × Int) =>
       intsToJson [m.1, m.2.1, m.2.2.1, m.2.2.2.1, m.2.2.2.2.1, m.2.2.2.2.2]) r)),
+  ("rwvmInit", fun j => do
+    pure (exceptToJson (fun (i : Int) => (i : Json)) (rwvmInit (← getOptInt j "lut") (← getOptInt j "slope") (← getOptInt j "intercept")
+      (← getBool j "isFloat") (← getInt j "first") (← getInt j "last")))),
+  ("applyMapping", fun j => do
+    pure (exceptToJson ratsToJson (applyMapping (← getMapping j) (← getIntList j "values")))),
   ("pmPixelDataType", fun j => do
     pure (exceptToJson (fun (i : Int) => (i : Json)) (pmPixelDataType (← getStr j "kind") (← getStr j "name") (← getStr j "dtype")))),
   ("pmSyntaxAdmitted", fun j => do
